@@ -606,6 +606,31 @@ def check_c08(opts):
         evals += 1
         if second != fresh:
             fails.append({'scenario': f'raw mux Subject, tee_map(map(*2), filter(odd), join={join}): subscribe, dispose, subscribe again', 'expected for the second subscriber (as a fresh pipeline)': fresh, 'got': second})
+    # a key lifetime that ends with a mux error (what roll / split / group_by send to their open windows when the parent key fails): the
+    # next lifetime on the same key slot is joined from scratch
+    for join, mkb in (('combine_latest', lambda: (rs.ops.filter(lambda i: i < 2), rs.ops.map(lambda i: i * 10))),
+                      ('zip', lambda: (rs.ops.filter(lambda i: i >= 2), rs.ops.map(lambda i: i * 10)))):
+        def lifetimes(first):
+            subj = _Subject(); got = []
+            subj.pipe(rs.cast_as_mux_observable(), rs.ops.tee_map(*mkb(), join=join)).subscribe(
+                on_next=lambda e: got.append(e.item) if type(e) is rs.OnNextMux else None, on_error=lambda e: got.append(repr(e)))
+            if first:
+                subj.on_next(rs.OnCreateMux((0,)))
+                subj.on_next(rs.OnNextMux((0,), 1))
+                subj.on_next(rs.OnErrorMux((0,), ValueError('bad item')))
+                del got[:]
+            subj.on_next(rs.OnCreateMux((0,)))
+            for v in (3, 4): subj.on_next(rs.OnNextMux((0,), v))
+            subj.on_next(rs.OnCompletedMux((0,)))
+            return got
+        try:
+            fresh, second = lifetimes(False), lifetimes(True)
+        except Exception as ex:
+            fresh, second = 'exception', repr(ex)[:200]
+        evals += 1
+        if second != fresh:
+            fails.append({'scenario': f'raw mux events: create (0,), item 1, mux error on (0,); create (0,) again, items 3, 4 -- tee_map(2 branches, join={join})',
+                          'expected for the second lifetime (as on a fresh pipeline)': fresh, 'got': second})
     # the join state of a key does not outlive the key: tee_map inside tumbling windows / segments == tee_map run on each window alone
     ub = [('even', branches[1][1]), ('gt2', branches[5][1]), ('pos_first', lambda: rx.pipe(rs.ops.filter(lambda i: i > 0), rs.ops.first())),
           ('count_reduce', lambda: rx.pipe(rs.ops.count(reduce=True))), ('id', branches[0][1])]
@@ -891,6 +916,21 @@ def check_c13(opts):
         if dead != ['ZeroDivisionError', 'ZeroDivisionError', 'DONE'] or not isinstance(got, list):
             fails.append({'pipeline': f'tee_map(..., join=merge) with [map(10 // i), route_errors()] as branch {pos}', 'input': [1, 0, 2, 0, 4], 'expected dead letters': ['ZeroDivisionError', 'ZeroDivisionError', 'DONE'],
                           'got dead letters': dead, 'output': str(got)[:120]})
+    # ... and when the stream ends with on_error: the router gets the stream error and its dead letter completes, in any branch
+    for pos in (0, 1, 2):
+        errors, route = rs.error.create_error_router()
+        dead = []
+        errors.subscribe(on_next=lambda e: dead.append(type(e).__name__), on_completed=lambda: dead.append('DONE'))
+        branches = [rx.pipe(rs.ops.map(lambda i: i)), rx.pipe(rs.ops.map(lambda i: -i)), rx.pipe(rs.ops.map(lambda i: i * 2))]
+        branches[pos] = rx.pipe(rs.ops.map(lambda i: 10 // i), route())
+        out = []
+        rx.concat(rx.from_([1, 0, 2]), rx.throw(KeyError('stream'))).pipe(rs.state.with_memory_store(rx.pipe(
+            rs.ops.group_by(lambda i: i % 2, rx.pipe(rs.ops.tee_map(*branches, join='merge')))))).subscribe(
+            on_next=out.append, on_error=lambda e: out.append(('on_error', type(e).__name__)), on_completed=lambda: out.append('DONE'))
+        evals += 1
+        if dead != ['ZeroDivisionError', 'KeyError', 'DONE'] or out[-1:] != [('on_error', 'KeyError')] or len(out) != 9:
+            fails.append({'pipeline': f'group_by(i%2) > tee_map(3 branches, join=merge) with [map(10 // i), route_errors()] as branch {pos}', 'input': '[1, 0, 2] then on_error(KeyError)',
+                          'expected dead letters': ['ZeroDivisionError', 'KeyError', 'DONE'], 'got dead letters': dead, 'output': str(out)[:160]})
     # the same for every raising operator (the mux error of each of them carries the store)
     src = [1, 2, 0, 4, 0, 5]
     for opname, mk in (('map', lambda: rs.ops.map(boom([0]))), ('starmap', lambda: rx.pipe(rs.ops.map(lambda i: (i,)), rs.ops.starmap(boom([0])))),
